@@ -73,6 +73,32 @@ def _positions(R: Draw, n: int, span: int = 10) -> tuple[int, int]:
     return a, R.int(a, min(n, a + R.int(0, span)))
 
 
+def _landmark_range(R: Draw, doc_node: Any, n: int, span: int = 20) -> tuple[int, int]:
+    """Both ends on structural landmarks: just before / after a node, at the start / at the very end of its content.
+    Edits whose ends coincide with such boundaries (a range ending at the end of a deep textblock, covering exactly
+    a node's content, starting between blocks) take paths that uniformly drawn positions rarely reach."""
+    marks: set[int] = {0, n}
+    for pos, nd in _node_positions(doc_node):
+        if nd.is_text:
+            marks.update((pos, pos + nd.node_size))
+        else:
+            marks.update((pos, pos + 1, pos + nd.node_size - 1, pos + nd.node_size) if not nd.is_leaf else (pos, pos + 1))
+    lm = sorted(m for m in marks if 0 <= m <= n)
+    if R.bool(0.3):
+        # end exactly at the end of a deeply nested textblock, start on a landmark somewhere before it
+        deep = [pos + nd.node_size - 1 for pos, nd in _node_positions(doc_node) if nd.is_textblock and doc_node.resolve(pos).depth >= 2]
+        if deep:
+            b = R.choice(deep)
+            before = [m for m in lm if b - 30 <= m <= b]
+            return (R.choice(before) if before else b), b
+    a = R.choice(lm)
+    later = [m for m in lm if a <= m <= a + span]
+    b = R.choice(later) if later and R.bool(0.85) else R.int(a, min(n, a + R.int(0, span)))
+    if R.bool(0.15):
+        a = max(0, min(b, a + R.choice([-1, 1])))
+    return a, b
+
+
 def _node_positions(doc_node: Any) -> list[tuple[int, Any]]:
     out: list[tuple[int, Any]] = []
     doc_node.descendants(lambda node, pos, parent, index: out.append((pos, node)) and None)
@@ -90,18 +116,18 @@ def gen_op(R: Draw, g: DocGen, lib: Any, doc_node: Any, kinds: list[str] | None 
     if kind in ("add_mark", "remove_mark", "add_node_mark", "remove_node_mark") and not rs.mark_names:
         kind = "delete"
     if kind == "replace" or kind == "replace_range":
-        a, b = _positions(R, n)
+        a, b = _landmark_range(R, doc_node, n) if use and R.bool(0.45) else _positions(R, n)
         return {"op": kind, "from": a, "to": b, "slice": gs.rand_slice(R, g, R.choice(["tiny", "small"])) if R.bool(0.8) else gs.closed_slice(R, g)}
     if kind == "replace_with":
-        a, b = _positions(R, n)
+        a, b = _landmark_range(R, doc_node, n) if use and R.bool(0.45) else _positions(R, n)
         return {"op": kind, "from": a, "to": b, "content": _node_content(R, g)}
     if kind == "insert":
         return {"op": kind, "pos": R.int(0, n), "content": _node_content(R, g)}
     if kind in ("delete", "delete_range"):
-        a, b = _positions(R, n, 14)
+        a, b = _landmark_range(R, doc_node, n) if use and R.bool(0.45) else _positions(R, n, 14)
         return {"op": kind, "from": a, "to": b}
     if kind == "replace_range_with":
-        a, b = _positions(R, n)
+        a, b = _landmark_range(R, doc_node, n) if use and R.bool(0.45) else _positions(R, n)
         if R.bool(0.5):
             b = a
         return {"op": kind, "from": a, "to": b, "node": _node_content(R, g)[0]}
